@@ -14,7 +14,9 @@ from pbt.ref import peaks as ref
 PROPERTY = "C13"
 CLAUSES = []
 ASSUMPTIONS = [
-    "series are non-constant, finite, n 3..3000, float64 / int64 ndarrays or lists; non-zero samples and differences are >= 1e-30 "
+    "series are non-constant, finite, n 3..3000, float64 / int64 / int32 / int16 ndarrays or lists (narrow integer dtypes use their full "
+    "range: the difference of two samples need not fit into the dtype; integer values are exactly representable in float64, |x| < 2^53 - "
+    "the library rebases integer series in floating point); non-zero samples and differences are >= 1e-30 "
     "in magnitude (the library multiplies successive differences; products below 1e-308 underflow - an implicit precondition no "
     "ground motion violates, as in C11/C12)",
     "total-variation identities are asserted with equality on integer and dyadic data (all sums exact) and to 4*eps*n*TV otherwise",
@@ -31,7 +33,7 @@ ASSUMPTIONS = [
     "integer counts up to 2^40), b in [0.06, 1] (scalars) / [0.08, 1] (arrays), a_ref in [0.05, 20] x max|x|, n_cyc in [0.5, 50]: all powers stay "
     "within 1e-200 .. 1e210; the exponent is a python / numpy scalar or an ndarray (a python LIST of exponents is not in the domain: the "
     "quantifier says 'scalar and array b' and the pinned functions raise TypeError on 1. / list); the power-law functions get ndarrays "
-    "(float64, int64, read-only, strided, negative stride), not lists (abs(list) raises in the pinned tree); the combined amplitude takes a "
+    "(float64, int64, int32 / int16 over the full range of the dtype, read-only, strided, negative stride) and python lists of floats; the combined amplitude takes a "
     "scalar b only (its 1-D arithmetic does not broadcast over an array of exponents)",
     "mid-range whole-output oracle of the peak-only series = the statement applied to every prefix of the record that ends at a reported "
     "peak (the series up to a turning point does not depend on what follows it): |delta| at a reported peak is the variation since the "
@@ -62,6 +64,10 @@ def _tidy(a):
 @st.composite
 def _series(draw, max_n=3000, start_zero=None):
     spec = draw(gen.record_specs(min_n=3, max_n=max_n, allow_zero_runs=True, allow_int=True, amp_lo=-3, amp_hi=3))
+    if draw(st.integers(0, 5)) == 0:
+        # narrow integer containers (raw counts of a 16 / 32 bit digitiser): the values are scaled to the full range of the
+        # dtype, so that the difference of two samples does not fit into the dtype
+        spec["as"] = draw(st.sampled_from(["int16", "int16", "int32"]))
     case = {"rec": spec, "start0": draw(st.booleans()) if start_zero is None else start_zero,
             "offset": draw(st.sampled_from([0.0, 0.0, 1.0, -2.5, 1024.0, -0.375]))}
     if not case["start0"] and draw(st.integers(0, 3)) == 0:
@@ -81,28 +87,38 @@ def _build(case):
     how = case["rec"].get("as")
     if how == "int":
         a = np.round(a * (8 if np.max(np.abs(a)) < 1e6 else 1))
+    elif how in NARROW:
+        top = float(np.max(np.abs(a)))
+        a = np.round(a / top * NARROW[how][1]) if top > 0 else np.round(a)
     return a, how
+
+
+# narrow integer dtypes: (dtype, full-scale count used by the generator; full scale + the constant shifts stay inside the dtype)
+NARROW = {"int16": (np.int16, 30000.0), "int32": (np.int32, 2.1e9)}
 
 
 def _as(a, how):
     if how == "int":
         return np.array(a, dtype=np.int64)
+    if how in NARROW:
+        return np.array(a, dtype=NARROW[how][0])
     if how == "list":
         return [float(v) for v in a]
     return np.array(a, dtype=float)
 
 
 def _exact_data(case, a):
-    return case["rec"]["k"] == "dyadic" or case["rec"].get("as") == "int" or bool(np.all(a == np.round(a)) and np.max(np.abs(a)) < 2 ** 40)
+    return case["rec"]["k"] == "dyadic" or case["rec"].get("as") in ("int", "int16", "int32") or bool(np.all(a == np.round(a)) and np.max(np.abs(a)) < 2 ** 40)
 
 
 @clause(CLAUSES, "total-variation", _series(), quick=700, thorough=3000,
-        rule="series of all kinds (plateau-rich integer levels, dyadic, element-wise floats, long recipes up to 3000; float / int / list), "
+        rule="series of all kinds (plateau-rich integer levels, dyadic, element-wise floats, long recipes up to 3000; float / int64 / list / "
+             "int16 and int32 counts scaled to the full range of the dtype), "
              "with and without a zero start and constant offsets; non-trivial = >= 3 reported peaks and at least one plateau or offset",
         oracle="reference model: delta series non-zero only at reference peak indices (C11), sum|delta| == total variation, |sum delta| == |x[-1]-x[0]|; "
                "pseudo-cyclic series sums to TV/2 + sign(final movement)*(x[-1]-x[0])/2; identical output after a constant (dyadic) shift; "
                "equality on exact data, 4*eps*n*TV otherwise; input unchanged",
-        require={"exact": 0.2, "plateau": 0.2})
+        require={"exact": 0.2, "plateau": 0.2, "narrow-int": 0.08, "difference-exceeds-dtype": 0.05, "rebased-exceeds-dtype": 0.03})
 def total_variation(case, ctx):
     a, how = _build(case)
     if ref.is_constant(a):
@@ -115,6 +131,10 @@ def total_variation(case, ctx):
     has_plateau = bool(np.any(np.diff(a) == 0))
     ctx.cls(gen.size_class(n), "as=" + (how or "ndarray"), "exact" if exact else "real", "plateau" if has_plateau else None,
             "start0" if a[0] == 0 else "offset-start")
+    if how in NARROW:
+        lim = float(np.iinfo(NARROW[how][0]).max)
+        ctx.cls("narrow-int", "difference-exceeds-dtype" if float(np.max(a) - np.min(a)) > lim else None,
+                "rebased-exceeds-dtype" if float(np.max(np.abs(a - a[0]))) > lim else None)
     ctx.nt(len(peaks) >= 3 and (has_plateau or a[0] != 0))
     snap = (list(x) if isinstance(x, list) else x.copy())
     d = np.asarray(ctx.lib(pk.determine_peaks_only_delta_series, x))
@@ -165,13 +185,15 @@ def total_variation(case, ctx):
     # constant shift (exactly representable): identical output
     if exact and case["offset"] != 0:
         shift = case["offset"] if how != "int" else float(int(case["offset"] * 8))
+        if how in NARROW:
+            shift = float(max(-2000, min(2000, int(case["offset"] * 8))))     # stays inside the dtype
         x2 = _as(a + shift, how)
         ctx.equal(ctx.lib(pk.determine_peaks_only_delta_series, x2), d, "delta series after a constant shift of %r" % shift)
         ctx.equal(ctx.lib(pk.determine_pseudo_cyclic_peak_only_series, x2), c, "pseudo-cyclic series after a constant shift of %r" % shift)
         ctx.cls("shifted")
     if how == "int" and np.max(np.abs(a)) < 2 ** 40:
-        # raw counts on a large integer baseline: the rebase is exact in integer arithmetic, so the output is identical
-        for big in (2 ** 55 + 7, -(2 ** 58) + 3):
+        # raw counts on a large integer baseline (all values exactly representable in float64, |x| < 2^53): identical output
+        for big in (2 ** 50 + 7, -(2 ** 51) + 3):
             x3 = np.array(a, dtype=np.int64) + np.int64(big)
             ctx.equal(ctx.lib(pk.determine_peaks_only_delta_series, x3), d, "delta series after an integer shift of %d" % big)
             ctx.equal(ctx.lib(pk.determine_pseudo_cyclic_peak_only_series, x3), c, "pseudo-cyclic series after an integer shift of %d" % big)
@@ -191,6 +213,8 @@ def _pl_cases(draw):
     c["ncyc"] = draw(gen.log_uniform(0.5, 50.0))
     c["alpha"] = draw(gen.scalars(1e-2, 1e2))
     c["unit"] = draw(st.sampled_from([0, 0, -20, -33, -50, 20, 40]))
+    # raw counts of a 16 / 32 bit digitiser using the full range of the dtype, the most negative sample at the dtype's minimum
+    c["narrow"] = draw(st.sampled_from([None, None, None, None, "int16", "int16", "int32"]))
     return c
 
 
@@ -203,12 +227,13 @@ def _ref_series(a, peaks, contrib):
 
 
 @clause(CLAUSES, "power-law", _pl_cases(), quick=500, thorough=2500,
-        rule="series as above (n <= 1500, half of them starting at 0), b in (0.05,1] scalar and arrays, cut_off in [0,0.1], a_ref within "
+        rule="series as above (n <= 1500, half of them starting at 0; 3 in 7 as int16 / int32 counts over the full range of the dtype with the "
+             "most negative sample at the dtype's minimum), b in (0.05,1] scalar and arrays, cut_off in [0,0.1], a_ref within "
              "[0.05,20] x max|x|, n_cyc in [0.5,50], alpha in +-[1e-2,1e2]; non-trivial = >= 4 reference switched peaks",
         oracle="reference model built from the reference switched peaks (C12): series == running sums (1e-10 rel), length, monotone; "
                "inverse A(N(a_ref)) == a_ref (cut_off 0; >= with cut_off); A(alpha x) == |alpha| A(x); N(alpha x, alpha a_ref) == N(x, a_ref); "
                "identical components: combined == 2^b single, geometric mean == single; array b column j == scalar call",
-        require={"nonzero-start": 0.2, "cut>0": 0.3, "first-value-is-peak": 0.06}, min_nontrivial=0.3)
+        require={"nonzero-start": 0.2, "cut>0": 0.3, "first-value-is-peak": 0.06, "narrow-int": 0.2, "most-negative-count": 0.1}, min_nontrivial=0.3)
 def power_law(case, ctx):
     a, _ = _build(case)
     if ref.is_constant(a):
@@ -233,6 +258,12 @@ def power_law(case, ctx):
         else:
             a = a * 2.0 ** int(np.ceil(-np.log2(float(np.max(np.abs(a))))))
             ctx.cls("unit-normalised")
+    x = a      # the argument handed to the library; `a` = the float64 values it represents
+    if case.get("narrow"):
+        xi, ai = gen.narrow_int(a, case["narrow"])
+        if not ref.is_constant(ai):
+            x, a = xi, ai
+            ctx.cls("narrow-int", "most-negative-count" if float(np.min(ai)) == float(np.iinfo(case["narrow"]).min) else None)
     n = len(a)
     b = case["b"]
     amax = float(np.max(np.abs(a)))
@@ -250,7 +281,7 @@ def power_law(case, ctx):
     contrib_n = np.where(keep, LD(0.5) * (pv / LD(aref)) ** (LD(1) / LD(b)), LD(0))
     nref = _ref_series(a, peaks, contrib_n)
     slack_n = len(peaks) * 0.5 * (1e-14 / aref) ** (1.0 / b) if cut > 0 else 0.0
-    ns = np.asarray(ctx.lib(im.calc_n_cyc_array_w_power_law, a, aref, b, cut_off=cut))
+    ns = np.asarray(ctx.lib(im.calc_n_cyc_array_w_power_law, x, aref, b, cut_off=cut))
     ctx.check(ns.shape[0] == n, "cycle series has length %s, record %d" % (ns.shape, n))
     ns1 = ns.reshape(n, -1)[:, 0]
     ctx.finite(ns1, "cycle series")
@@ -263,7 +294,7 @@ def power_law(case, ctx):
     # ---- equivalent uniform amplitude
     contrib_a = LD(0.5) * pv ** (LD(1) / LD(b)) / LD(ncyc)
     aref_series = _ref_series(a, peaks, contrib_a) ** LD(b)
-    As = np.asarray(ctx.lib(im.calc_cyc_amp_array_w_power_law, a, ncyc, b))
+    As = np.asarray(ctx.lib(im.calc_cyc_amp_array_w_power_law, x, ncyc, b))
     ctx.shape(As, (n,), "equivalent amplitude series (scalar b)")
     ctx.check(bool(np.all(np.diff(As) >= 0)), "equivalent uniform amplitude is not non-decreasing")
     tol_a = 1e-10 * float(aref_series[-1]) + core.TINY
@@ -274,7 +305,7 @@ def power_law(case, ctx):
     # ---- mutually inverse
     n_end = float(ns1[-1])
     if n_end > 0:
-        back = float(np.asarray(ctx.lib(im.calc_cyc_amp_array_w_power_law, a, n_end, b))[-1])
+        back = float(np.asarray(ctx.lib(im.calc_cyc_amp_array_w_power_law, x, n_end, b))[-1])
         if cut == 0:
             ctx.check(abs(back - aref) <= 1e-9 * aref, "A(N(a_ref)) = %r but a_ref = %r (b=%r)" % (back, aref, b))
         else:
@@ -290,19 +321,19 @@ def power_law(case, ctx):
     else:
         ctx.close(N2, ns1, 1e-10 * float(ns1[-1]) + 2 * slack_n * max(1.0, abs(al) ** (-1.0 / b)) + core.TINY, "N(alpha x, alpha a_ref) vs N(x, a_ref)")
     # ---- two identical components
-    comb = np.asarray(ctx.lib(im.calc_cyc_amp_combined_arrays_w_power_law, a, a.copy(), ncyc, b))
-    gm = np.asarray(ctx.lib(im.calc_cyc_amp_gm_arrays_w_power_law, a, a.copy(), ncyc, b))
+    comb = np.asarray(ctx.lib(im.calc_cyc_amp_combined_arrays_w_power_law, x, x.copy(), ncyc, b))
+    gm = np.asarray(ctx.lib(im.calc_cyc_amp_gm_arrays_w_power_law, x, x.copy(), ncyc, b))
     ctx.close(comb, 2.0 ** b * As, 1e-10 * 2.0 ** b * float(As[-1]) + core.TINY, "combined amplitude of two identical components vs 2^b * single")
     ctx.close(gm, As, 1e-10 * float(As[-1]) + core.TINY, "geometric-mean amplitude of two identical components vs single")
     # ---- array b
     barr = np.array(case["barr"], dtype=float)
-    Aarr = np.asarray(ctx.lib(im.calc_cyc_amp_array_w_power_law, a, ncyc, barr))
-    Narr = np.asarray(ctx.lib(im.calc_n_cyc_array_w_power_law, a, aref, barr, cut_off=cut))
+    Aarr = np.asarray(ctx.lib(im.calc_cyc_amp_array_w_power_law, x, ncyc, barr))
+    Narr = np.asarray(ctx.lib(im.calc_n_cyc_array_w_power_law, x, aref, barr, cut_off=cut))
     ctx.shape(Aarr, (n, len(barr)), "amplitude series for array b")
     ctx.shape(Narr, (n, len(barr)), "cycle series for array b")
     for j, bj in enumerate(barr):
-        Aj = np.asarray(ctx.lib(im.calc_cyc_amp_array_w_power_law, a, ncyc, float(bj)))
-        Nj = np.asarray(ctx.lib(im.calc_n_cyc_array_w_power_law, a, aref, float(bj), cut_off=cut)).reshape(n, -1)[:, 0]
+        Aj = np.asarray(ctx.lib(im.calc_cyc_amp_array_w_power_law, x, ncyc, float(bj)))
+        Nj = np.asarray(ctx.lib(im.calc_n_cyc_array_w_power_law, x, aref, float(bj), cut_off=cut)).reshape(n, -1)[:, 0]
         ctx.close(Aarr[:, j], Aj, 1e-12 * float(Aj[-1]) + core.TINY, "array-b column %d vs scalar call (amplitude)" % j)
         ctx.close(Narr[:, j], Nj, 1e-12 * float(Nj[-1]) + core.TINY, "array-b column %d vs scalar call (cycles)" % j)
 
@@ -403,6 +434,12 @@ def _mr_container(a, how):
         return ai, ai.astype(float)
     if how == "list":
         return [float(v) for v in a], a
+    if how in ("int16", "int32"):
+        # raw counts over the full range of the dtype, the most negative sample at the dtype's minimum
+        xi, ai = gen.narrow_int(a, how)
+        if np.all(ai == ai[0]):
+            return a.copy(), a
+        return xi, ai
     if how in ("view", "negstride", "readonly"):
         return gen.as_container({"as": how}, a), a
     return a.copy(), a
@@ -591,7 +628,7 @@ def _mid_cases(tier):
             cases.append(dict(base, start=_pick(["zero", "offset", "offset", "lead"], "tvs", i, kind), grid=0,
                               container=_pick(["ndarray", "ndarray", "list"], "tvc", i, kind)))
             cases.append(dict(base, seed=_sd("mid-tvx", i, kind), start=_pick(["zero", "offset", "offset", "lead"], "tvsx", i, kind),
-                              grid=_pick([3, 10], "tvg", i, kind), container=_pick(["ndarray", "int", "list"], "tvcx", i, kind),
+                              grid=_pick([3, 10], "tvg", i, kind), container=_pick(["ndarray", "int", "list", "int16", "int32"], "tvcx", i, kind),
                               shift=_pick([1024.0, -2.5, 1.0, -0.375], "tvo", i, kind)))
     for i, n in enumerate(sizes):
         for kind in ("smooth", "band", "noise"):
@@ -600,7 +637,7 @@ def _mid_cases(tier):
             # power-law functions
             pl = dict(base, start=_pick(["zero", "zero", "offset", "lead"], "pls", i, kind), unit=_pick(UNITS, "plu", i, kind),
                       aref_rel=round(_logu(0.05, 20.0, "plr", i, kind), 6), ncyc=round(_logu(0.5, 50.0, "pln", i, kind), 6),
-                      container=_pick(["ndarray", "ndarray", "ndarray", "int", "readonly"], "plc", i, kind))
+                      container=_pick(["ndarray", "ndarray", "ndarray", "int", "readonly", "int32", "list"], "plc", i, kind))
             if _hu("plb", i, kind) < 0.6:
                 b = _pick(B_SCALARS, "plbs", i, kind) if _hu("plb2", i, kind) < 0.5 else round(0.06 + 0.94 * _hu("plb3", i, kind), 4)
             else:
@@ -631,13 +668,19 @@ def _tv_check(ctx, c):
         if pf.is_constant(a0):
             a0[-1] += 1.0
         x = a0.astype(np.int64)
+    elif how in NARROW:
+        # raw counts using the full range of a 16 / 32 bit dtype: differences of two samples do not fit into the dtype
+        a0 = np.round(a0 / float(np.max(np.abs(a0))) * NARROW[how][1])
+        if pf.is_constant(a0):
+            a0[-1] += 1.0
+        x = a0.astype(NARROW[how][0])
     elif how == "list":
         x = [float(v) for v in a0]
     else:
         x = a0.copy()
     a = a0
     n = len(a)
-    exact = how == "int" or int(c.get("grid", 0)) > 0
+    exact = how in ("int", "int16", "int32") or int(c.get("grid", 0)) > 0
     lp = pf.local_peak_indices(a)
     has_plateau = bool(np.any(a[1:] == a[:-1]))
     ctx.cls("kind=" + c["kind"], "n>50000" if n > 50000 else "n<=50000", "as=" + how, "exact" if exact else "real",
@@ -710,8 +753,11 @@ def _tv_check(ctx, c):
               "pseudo-cyclic series sums to %r, expected TV/2 + sign(final movement)*(end-start)/2 = %r" % (float(np.sum(cl_)), float(want_sum)))
     if exact:
         if how == "int":
-            x2 = x + np.int64(2 ** 55 + 7)
-            what = "an integer shift of 2^55+7"
+            x2 = x + np.int64(2 ** 50 + 7)     # all values stay exactly representable in float64
+            what = "an integer shift of 2^50+7"
+        elif how in NARROW:
+            x2 = x + NARROW[how][0](2000)
+            what = "an integer shift of 2000 (%s)" % how
         else:
             x2 = a + float(c.get("shift", 1024.0))
             x2 = [float(v) for v in x2] if how == "list" else x2
@@ -750,7 +796,7 @@ def _single_check(ctx, c):
 def _pair_check(ctx, c, which):
     s = _pl_setup(ctx, dict(c, cut=0.0))
     b = float(c["b"])
-    x2 = s["x"].copy()
+    x2 = list(s["x"]) if isinstance(s["x"], list) else s["x"].copy()
     if which in ("pair", "comb"):
         comb = np.asarray(ctx.lib(im.calc_cyc_amp_combined_arrays_w_power_law, s["x"], x2, s["ncyc"], b))
         _check_a_col(ctx, s, comb, b, "combined amplitude of two identical components vs 2^b * single", factor=2.0 ** b)
@@ -931,7 +977,7 @@ def _prod_check(ctx, c):
         out = np.asarray(ctx.lib(im.calc_cyc_amp_array_w_power_law, s["x"], s["ncyc"], b))
         name = "amplitude series for array b"
     else:
-        out = np.asarray(ctx.lib(im.calc_cyc_amp_gm_arrays_w_power_law, s["x"], s["x"].copy(), s["ncyc"], b))
+        out = np.asarray(ctx.lib(im.calc_cyc_amp_gm_arrays_w_power_law, s["x"], s["x"].copy(), s["ncyc"], b))  # ndarray containers only here
         name = "geometric-mean amplitude of two identical components for array b"
     ctx.check(np.array_equal(bsnap, np.asarray(b)), "the array of exponents was modified")
     _matrix_check(ctx, s, out, bvals, "N" if mode == "N" else "A", name)
@@ -985,7 +1031,7 @@ def mid_range_products(case, ctx):
 
 OPT_CUTS = [None, 0.0, 0.03, 0.1]
 OPT_B = ["float", "npfloat", "int1", "array1", "array3r", "array-strided", "array-int"]
-OPT_CONT = ["ndarray", "int", "readonly", "view", "negstride"]
+OPT_CONT = ["ndarray", "int", "readonly", "view", "negstride", "list", "int16", "int32"]
 OPT_START = ["zero", "offset", "lead"]
 
 
@@ -1029,11 +1075,12 @@ def _opt_enum(tier, shard, nshards):
 @enum_clause(CLAUSES, "mid-range-options", _opt_enum,
              rule="full cross product cut_off {omitted, 0, 0.03, 0.1} x exponent {float, numpy scalar, int 1, array of 1, array with repeated "
                   "entries (read-only), strided array, integer array of ones} x container {float64, int64, read-only, strided view, negative "
-                  "stride} x start {zero, offset, first-value-is-peak} (420 cases; thorough 3 x with other data), records of 2200..9000 "
+                  "stride, list, int16 and int32 full-range counts} x start {zero, offset, first-value-is-peak} (672 cases; thorough 3 x with other "
+                  "data), records of 2200..9000 "
                   "(thorough 60000) samples, keyword / positional spelling by the case's hash",
              oracle="as mid-range: N and A over the whole series against the long-double reference, inverse at the end of the record; for scalar "
                     "exponents also combined(x, x) == 2^b single and gm(x, x) == single; arguments unchanged",
-             exhaustive_note="every combination of the four option dimensions (4 x 7 x 5 x 3)",
+             exhaustive_note="every combination of the four option dimensions (4 x 7 x 8 x 3)",
              min_nontrivial=0.9, quick_shards=4)
 def mid_range_options(case, ctx):
     ctx.cls("bform=" + case["bform"])
@@ -1041,9 +1088,10 @@ def mid_range_options(case, ctx):
     if not isinstance(case["b"], dict) or case["b"]["form"] in ("npfloat", "int1"):
         s = _pl_setup(core.Ctx(), dict(case, cut=0.0))
         b = _b_arg(case)[0]
-        comb = np.asarray(ctx.lib(im.calc_cyc_amp_combined_arrays_w_power_law, s["x"], s["x"].copy(), s["ncyc"], b))
+        x2 = list(s["x"]) if isinstance(s["x"], list) else s["x"].copy()
+        comb = np.asarray(ctx.lib(im.calc_cyc_amp_combined_arrays_w_power_law, s["x"], x2, s["ncyc"], b))
         _check_a_col(ctx, s, comb, float(b), "combined amplitude of two identical components vs 2^b * single", factor=2.0 ** float(b))
-        gmv = np.asarray(ctx.lib(im.calc_cyc_amp_gm_arrays_w_power_law, s["x"], s["x"].copy(), s["ncyc"], b))
+        gmv = np.asarray(ctx.lib(im.calc_cyc_amp_gm_arrays_w_power_law, s["x"], x2, s["ncyc"], b))
         _check_a_col(ctx, s, gmv, float(b), "geometric-mean amplitude of two identical components vs single")
 
 
